@@ -31,7 +31,7 @@ MODULES = {
     'C16': ['contracts.c16', 'contracts.c15'],
     'C13': ['contracts.c13'],
     'C10': ['contracts.c10'],
-    'C11': ['contracts.c11'],
+    'C11': ['contracts.c11', 'contracts.pit_graph'],
     'C08': ['contracts.pit_layers', 'contracts.pit_graph'],
     'C01': ['contracts.pit_layers', 'contracts.pit_graph'],
     'C04': ['contracts.pit_layers', 'contracts.wrappers', 'contracts.c15', 'contracts.pit_graph'],
@@ -39,7 +39,7 @@ MODULES = {
     'C05': ['contracts.mps_layers', 'contracts.wrappers', 'contracts.pit_graph'],
     'C02': ['contracts.mps_layers'],
     'C06': ['contracts.wrappers', 'contracts.pit_graph'],
-    'C18': ['contracts.wrappers'],
+    'C18': ['contracts.wrappers', 'contracts.pit_layers', 'contracts.mps_layers'],
     'C09': ['contracts.c09', 'contracts.pit_layers', 'contracts.pit_graph'],
     'C14': ['contracts.c14'],
     'C20': ['contracts.c20'],
@@ -153,7 +153,7 @@ def main(argv=None):
         cfgs = h.get(tier) or h.get('quick') or [{}]
         for cfg in cfgs:
             jobs.append(dict(module=m, fn=h['fn'], config=cfg, name=h['name'], native=h.get('native', True), timeout=h.get('timeout', 60 if tier == 'quick' else 120),
-                             max_paths=h.get('max_paths', 20000), crosscheck=h.get('crosscheck', 2 if tier == 'quick' else 8),
+                             budget=h.get('budget', 240 if tier == 'quick' else 1200), max_paths=h.get('max_paths', 20000), crosscheck=h.get('crosscheck', 2 if tier == 'quick' else 8),
                              seed=seed, helper=h.get('helper', False)))
     known = load_known(pid)
     ctx = mp.get_context('fork')
